@@ -54,6 +54,7 @@ class Vars(list):
     sused = None
     reuse_condition_objects = False
     reuse_within_query = False
+    fmemo = None
 
 
 def build_term(t, V):
@@ -191,6 +192,13 @@ def build_cond(c, V):
                 V2.cmemo = None
             V2[c[1]] = univ
             return for_all(univ, build_cond(c[2], V2))
+        fmemo = getattr(V, "fmemo", None)
+        if fmemo is not None:
+            # fa = for_all(u, c); and_(or_(fa, d), fa): equal for_all conditions of one query are ONE object
+            key = json.dumps(c, sort_keys=True)
+            if key not in fmemo:
+                fmemo[key] = for_all(univ, build_cond(c[2], V))
+            return fmemo[key]
         return for_all(univ, build_cond(c[2], V))
     if k == "const":
         return bool(c[1])
@@ -362,6 +370,10 @@ def build_query(case, objs, containers=None, negate: int = 0, quant: Optional[st
             V.cmemo = {}
         V.cused = set()
         V.reuse_within_query = True
+    if case.get("one_forall_object_twice") and not negate and not negate_desc:
+        if not isinstance(V, Vars):
+            V = Vars(V)
+        V.fmemo = {}
     main = build_over(V, case, negate, quant, negate_desc, neg_form, conts)
     if case.get("later_uses"):
         main.later = later_uses(V)       # kept alive with the query
